@@ -45,6 +45,39 @@ NLW2_SRCS = ['nl-writer2/src/' + f for f in
 
 _lock = threading.Lock()
 _hash_cache = {}
+_gen_dir = None
+
+
+def gen_dir():
+    """src/expr-info.cc and nl-writer2/include/mp/nl-opcodes.h are generated (git-ignored) files.
+    Regenerate both from the current tree's src/gen-expr-info.cc so that an edit of the opcode
+    table is never masked by stale generated files (and scratch worktrees, which lack them, build)."""
+    global _gen_dir
+    if _gen_dir: return _gen_dir
+    with _lock:
+        if _gen_dir: return _gen_dir
+        srcs = [os.path.join(REPO, 'src/gen-expr-info.cc'), os.path.join(REPO, 'src/format.cc'),
+                os.path.join(REPO, 'src/posix.cc'),
+                os.path.join(REPO, 'include/mp/common.h'), os.path.join(REPO, 'include/mp/format.h')]
+        h = hashlib.sha1()
+        for f in srcs: h.update(_sha_file(f).encode())
+        d = os.path.join(BUILD, 'gen', hashlib.sha1((REPO + h.hexdigest()).encode()).hexdigest()[:16])
+        with FileLock(d + '.lock'):
+            if not os.path.exists(os.path.join(d, 'ok')):
+                os.makedirs(os.path.join(d, 'src'), exist_ok=True)
+                os.makedirs(os.path.join(d, 'include', 'mp'), exist_ok=True)
+                exe = os.path.join(d, 'gen-expr-info')
+                r = subprocess.run(['g++', '-std=c++17', '-O0', '-w'] + DEFS + ['-I' + REPO + '/include', '-o', exe,
+                                    srcs[0], srcs[1], srcs[2]], capture_output=True, text=True)
+                if r.returncode != 0:
+                    sys.stderr.write('BUILD-ERROR gen-expr-info\n' + r.stderr[-3000:]); raise SystemExit(2)
+                r = subprocess.run([exe, os.path.join(d, 'src', 'expr-info.cc'),
+                                    os.path.join(d, 'include', 'mp', 'nl-opcodes.h')], capture_output=True, text=True)
+                if r.returncode != 0:
+                    sys.stderr.write('BUILD-ERROR running gen-expr-info\n' + r.stderr[-3000:]); raise SystemExit(2)
+                open(os.path.join(d, 'ok'), 'w').write('ok')
+        _gen_dir = d
+        return d
 
 
 def _sha_file(path):
@@ -91,10 +124,10 @@ def obj_path(src, variant, tag=''):
 def compile_one(src, variant, extra=(), tag=''):
     """Compile src (absolute, or relative to REPO) -> object path.  Rebuilds iff stale."""
     if not os.path.isabs(src):
-        src = os.path.join(REPO, src)
+        src = os.path.join(gen_dir(), src) if src == 'src/expr-info.cc' else os.path.join(REPO, src)
     obj = obj_path(src, variant, tag)
     os.makedirs(os.path.dirname(obj), exist_ok=True)
-    cmd = VARIANTS[variant] + DEFS + INCS + list(extra) + ['-c', src]
+    cmd = VARIANTS[variant] + DEFS + ['-I' + gen_dir() + '/include'] + INCS + list(extra) + ['-c', src]
     dfile = obj + '.d'
     sfile = obj + '.stamp'
     with FileLock(obj + '.lock'):
@@ -127,7 +160,8 @@ def compile_many(jobs, workers=16):
 
 
 def link(name, objs, variant, libs=()):
-    out = os.path.join(BUILD, 'bin', variant, name)
+    vdir = variant if REPO == '/repo' else variant + '-' + hashlib.sha1(REPO.encode()).hexdigest()[:8]
+    out = os.path.join(BUILD, 'bin', vdir, name)     # binaries of scratch worktrees do not collide
     os.makedirs(os.path.dirname(out), exist_ok=True)
     cmd = LINK[variant] + ['-o', out] + list(objs) + list(libs)
     sfile = out + '.stamp'
